@@ -207,7 +207,12 @@ class Requests:
 
 
 def ev_query(host: str, raw: str, method: str, obs: dict) -> dict:
-    return {"ev": "Query", "host": host, "raw": G.cps(raw), "method": method, "obs": obs}
+    return {"ev": "Query", "host": G.cps(host), "raw": G.cps(raw), "method": method, "obs": obs}
+
+
+def mk_trace(table: List[dict], src: str, events: List[dict]) -> dict:
+    return {"cfg": {"table": table, "domains": [[d, G.cps(d)] for d in G.domains_of(table)]},
+            "src": src, "events": events}
 
 
 class Driver:
@@ -244,7 +249,7 @@ class Driver:
     def url_for(self, b: Bound, idx: int, vals: Dict[str, str]) -> dict:
         async def go() -> dict:
             ev = {"ev": "UrlFor", "idx": idx, "vals": sorted([k, G.cps(v)] for k, v in vals.items()),
-                  "raw": [], "host": OTHER_HOST, "method": "GET",
+                  "raw": [], "host": G.cps(OTHER_HOST), "method": "GET",
                   "obs": {"t": "none", "i": 0, "vars": [], "allowed": []}}
             try:
                 url = b.route_objs[idx].url_for(**vals)
@@ -269,7 +274,7 @@ class Driver:
             req = self.reqs.parsed("GET", target, OTHER_HOST, b.app)
             if req is None:
                 return None
-            ev = {"ev": "Redirect", "raw": G.cps(target), "host": OTHER_HOST, "method": "GET",
+            ev = {"ev": "Redirect", "raw": G.cps(target), "host": G.cps(OTHER_HOST), "method": "GET",
                   "ap": opts[0], "rm": opts[1], "mg": opts[2], "status": 0, "hasloc": False, "loc": []}
             try:
                 resp = await b.app._handle(req)
@@ -390,8 +395,9 @@ class Judge:
 
 
 def _short(e: dict) -> dict:
-    d = {k: v for k, v in e.items() if k in ("ev", "host", "method", "obs", "idx", "status", "ap", "rm", "mg")}
+    d = {k: v for k, v in e.items() if k in ("ev", "method", "obs", "idx", "status", "ap", "rm", "mg")}
     d["raw"] = G.seg_str(e.get("raw", []))
+    d["host"] = G.seg_str(e.get("host", []))
     if e.get("hasloc"):
         d["loc"] = G.seg_str(e["loc"])
     if "vals" in e:
@@ -416,7 +422,7 @@ def _describe(d: dict) -> str:
     if e["ev"] == "UrlFor":
         vals = dict((k, G.seg_str(v)) for k, v in e["vals"])
         return f"{s} url_for({vals}) = {G.seg_str(e['raw'])!r} -> resolve -> {got}" + (f" ({e['err']})" if e.get("err") else "")
-    return f"{s} {e['method']} {G.seg_str(e['raw'])!r} Host={e['host']} -> {got}"
+    return f"{s} {e['method']} {G.seg_str(e['raw'])!r} Host={G.seg_str(e['host'])} -> {got}"
 
 
 def _detail(d: dict) -> dict:
@@ -433,7 +439,7 @@ class Grammar:
         self.entries = [G.entry_from_tla(e) for e in g["entries"]]
         self.paths: List[G.Path] = [[list(s) for s in p] for p in g["paths"]]
         self.tables: List[Tuple[int, ...]] = sorted((tuple(t) for t in g["tables"]), key=lambda t: (len(t), t))
-        self.methods = ["GET", "POST"]
+        self.methods = sorted(g.get("methods", ["GET", "POST"]))
 
     def table(self, ids: Tuple[int, ...]) -> List[dict]:
         return [copy.deepcopy(self.entries[i - 1]) for i in ids]
